@@ -434,9 +434,13 @@ def replay(prop, path, race):
 
 
 REAL_VS_STUB = {
-    "real (instrumented by simrewrite only)": ["src/app", "src/pclog", "src/health", "go-health v2.1.4", "src/types", "src/loader", "src/templater", "src/admitter", "src/api", "src/client", "src/command (down to exec.Cmd / kill / getpgid)"],
-    "simulated": ["OS kernel: process table, process groups, signals, pipes, pids (verifrt/simos)", "clock/timers (testing/synctest fake clock)", "goroutine scheduling (verifrt/simsync)", "map iteration order (PRNG-ordered)"],
-    "stubbed / not executed": ["TCP/UDS listener and net/http server loop (requests are served by direct ServeHTTP)", "src/tui", "src/cmd (cobra, OS signal handler)", "PTY, elevated processes", "log rotation", "HTTP probe transport"],
+    "real (instrumented by simrewrite only)": ["src/app", "src/pclog", "src/health", "go-health v2.1.4", "src/types", "src/loader", "src/templater", "src/admitter",
+                                               "src/api (router, handlers, websocket handler; gin and gorilla/websocket run unmodified)", "src/client (REST calls over an in-process transport)",
+                                               "src/command (down to exec.Cmd / kill / getpgid)", "src/cmd/project_runner.go (runHeadless: the binary's signal handler + Run)"],
+    "simulated": ["OS kernel: process table, process groups, signals, pipes, pids (verifrt/simos)", "clock/timers (testing/synctest fake clock)", "goroutine scheduling (verifrt/simsync)",
+                  "map iteration order (PRNG-ordered)", "signals sent to the binary (verifrt/simsignal instead of os/signal)", "websocket connection (verifrt/simnet: bounded in-memory duplex connection)"],
+    "stubbed / not executed": ["TCP/UDS listener and net/http server loop (requests are served by direct ServeHTTP)", "src/tui", "the rest of src/cmd (cobra commands, flags)", "PTY processes, elevated processes",
+                               "log rotation", "HTTP probe transport (http probes are loaded and validated, never run)", "the bundled client's websocket log reader (gorilla's client is used directly)"],
 }
 ASSUMPTIONS = [
     "the simulated kernel (verifrt/simos) models Linux process groups, signals and pipes faithfully enough for the property",
